@@ -7,6 +7,7 @@ import (
 	"strings"
 
 	"crverif/internal/an"
+	"crverif/internal/load"
 
 	"golang.org/x/tools/go/ssa"
 )
@@ -640,7 +641,15 @@ func c20HTTPStop(c *Ctx) {
 	}
 	fn := c.fname(run)
 	closes, bad := 0, ""
-	for _, f := range an.WithAnon(run) {
+	// Run, its closures, and the functions of package corerad it reaches (the listen/serve body may be a method)
+	reach := an.ModuleReach([]*ssa.Function{run}, func(f *ssa.Function) bool {
+		return load.InModule(f) && (f.Pkg == nil || strings.HasSuffix(f.Pkg.Pkg.Path(), "internal/corerad"))
+	}, nil)
+	var fns []*ssa.Function
+	for f := range reach {
+		fns = append(fns, f)
+	}
+	for _, f := range fns {
 		for _, ci := range an.CallsIn(f) {
 			fo := an.CalleeObj(ci.Common())
 			if fo == nil || fo.Pkg() == nil || fo.Pkg().Path() != "net/http" {
